@@ -29,16 +29,27 @@ var c09Arena = make([]orb.Point, 512)
 
 var c09Offsets = [][2]float64{{0, 0}, {16384, 16384}, {500000, 4000000}, {1 << 20, -(1 << 22)}, {-(1 << 30), 1 << 30}, {1 << 40, 1 << 40}, {0.25, -1e6}}
 
+// c09Mul scales the whole configuration by a power of two (exact, like the translation): what contains what does not
+// depend on the unit - also when the unit is 2^-600 or 2^600 of the lattice step (products of two coordinates are
+// then beyond the float64 range, the coordinates themselves are far from it)
+var c09Mul = 1.0
+var c09Muls = []float64{1, 1, 1, 1, 1, 1, math.Ldexp(1, -600), math.Ldexp(1, 600), math.Ldexp(1, -540), math.Ldexp(1, 510), math.Ldexp(1, -1000), math.Ldexp(1, 900), math.Ldexp(1, -100), math.Ldexp(1, 200)}
+
+func c09Pt(p [2]int) orb.Point {
+	return orb.Point{(float64(p[0])/c09Scale + c09Off[0]) * c09Mul, (float64(p[1])/c09Scale + c09Off[1]) * c09Mul}
+}
+
 func c09Ring(r [][2]int) orb.Ring {
 	out := make(orb.Ring, len(r))
 	for i, p := range r {
-		out[i] = orb.Point{float64(p[0])/c09Scale + c09Off[0], float64(p[1])/c09Scale + c09Off[1]}
+		out[i] = c09Pt(p)
 	}
 	return out
 }
 
 func c09Run(c *ctx, fn string, mp [][][][2]int, q [][2]int) {
 	e := containsEv{K: "contains", Fn: fn, MP: mp, Q: q}
+	c09Mul = c09Muls[(c09Calls/3)%len(c09Muls)]
 	var g orb.MultiPolygon
 	for _, p := range mp {
 		var poly orb.Polygon
@@ -61,7 +72,7 @@ func c09Run(c *ctx, fn string, mp [][][][2]int, q [][2]int) {
 	ones := 0
 	site := guard(func() {
 		for _, qp := range q {
-			pt := orb.Point{float64(qp[0])/c09Scale + c09Off[0], float64(qp[1])/c09Scale + c09Off[1]}
+			pt := c09Pt(qp)
 			var in bool
 			switch fn {
 			case "ring":
